@@ -296,7 +296,7 @@ class CallStack(deque):
         cells = node[OBJ]
 
         graph = cells.model.tracegraph
-        if graph.has_node(node):
+        if cells.is_cached and graph.has_node(node):
             graph.remove_node(node)
 
         while self.refstack:
